@@ -427,16 +427,17 @@ struct Gen {
         y += 1;
         return k;
     }
+    char actionRole = 'P';
     KwIR ordinary(bool inAction = false) {
         for (;;) {
             int c = r.range(0, inAction ? 8 : 13);
             switch (c) {
             case 0: return welopen(inAction);
-            case 1: return wconprod(inAction);
+            case 1: return wconprod(inAction && actionRole == 'P');
             case 2: return weltarg(inAction);
             case 3: return wefac(inAction);
             case 4: return gconprod();
-            case 5: return wconinje(inAction);
+            case 5: return wconinje(inAction && actionRole == 'I');
             case 6: return welopen(inAction);
             case 7: if (inAction) { if (r.coin(1, 3)) return compdat(true); continue; } return compdat();
             case 8: if (inAction) { return gruptree(); } return welspecs();
@@ -449,7 +450,8 @@ struct Gen {
         }
     }
     void actionBlock(std::vector<KwIR>& out) {
-        std::string name = "ACT" + std::to_string(r.range(1, 3));
+        actionRole = r.coin(2, 3) ? 'P' : 'I';
+        std::string name = std::string("ACT") + actionRole + std::to_string(r.range(1, 2));
         out.push_back(KwIR{ "ACTIONX", { { name } }, "" });
         int n = r.range(1, 3);
         for (int i = 0; i < n; ++i) out.push_back(ordinary(true));
@@ -845,7 +847,7 @@ std::vector<App> chooseApps(vh::Rng& rng, const Schedule& sched, int maxApps, bo
         if (cands.empty()) break;
         auto c = cands[rng.below(cands.size())];
         App app{ c.first, c.second, {} };
-        for (const auto& w : sched.wellNames(c.first)) if (rng.coin(1, 2)) app.wells.push_back(w);
+        for (const auto& w : sched.wellNames(c.first)) if (w[0] == c.second[3] && rng.coin(2, 3)) app.wells.push_back(w);
         if (rng.coin(1, 3)) std::reverse(app.wells.begin(), app.wells.end());
         apps.push_back(app);
         lo = c.first;
@@ -987,6 +989,38 @@ int aprop(uint64_t seed, const std::string& tier, const std::string& outdir) {
             if (strip(da) != strip(db)) { log.fail(key, "state " + std::to_string(k) + " differs from inlined deck: " + firstDiff(strip(da), strip(db)) + " apps=" + encApps(apps)); break; }
             log.ok();
         }
+    }
+    // ACTIONX with WELPI (run-time productivity-index scaling): states before the action step must stay
+    {
+        std::vector<KwIR> ks;
+        ks.push_back(KwIR{ "WELSPECS", { { "P1", "G1", "2", "2" } }, "" });
+        ks.push_back(KwIR{ "COMPDAT", { { "P1", "0", "0", "1", "2", "OPEN" } }, "" });
+        ks.push_back(KwIR{ "WCONPROD", { { "P1", "OPEN", "ORAT", "1000", "*", "*", "*", "*", "50" } }, "" });
+        ks.push_back(KwIR{ "ACTIONX", { { "ACTP1" } }, "" });
+        ks.push_back(KwIR{ "WELPI", {}, "WELPI\n 'P1' 10 /\n/\n" });
+        ks.push_back(KwIR{ "ENDACTIO", {}, "" });
+        ks.push_back(KwIR{ "TSTEP", { { "10/1" }, { "10/1" }, { "10/1" } }, "" });
+        auto deck = std::make_shared<Deck>(parseText(deckOf(ks)));
+        Real ref = build(deck), app = build(deck);
+        if (ref.ok && app.ok) {
+            bool ok = true;
+            try {
+                const Action::ActionX act = (*app.sched)[2].actions()["ACTP1"];
+                const auto res = Action::Result{ true }.wells({ "P1" });
+                app.sched->applyAction(2, act, res.matches(), std::unordered_map<std::string, double>{ { "P1", 1.0 } });
+            } catch (...) { ok = false; }
+            if (ok) {
+                std::string changed;
+                for (size_t k = 0; k < 2; ++k) if (!((*app.sched)[k] == (*ref.sched)[k])) changed += std::to_string(k) + " ";
+                double cf0 = 0, cf1 = 0;
+                for (const auto& c : ref.sched->getWell("P1", 0).getConnections()) { cf0 = c.CF(); break; }
+                for (const auto& c : app.sched->getWell("P1", 0).getConnections()) { cf1 = c.CF(); break; }
+                if (!changed.empty()) {
+                    char b[200]; std::snprintf(b, sizeof b, "connection factor of P1 at step 0: %.6g before, %.6g after", cf0, cf1);
+                    log.fail("actionx-welpi-rescales-past", "ACTIONX{WELPI P1 10} applied at step 2 changed snapshots " + changed + "(" + b + ")");
+                } else log.ok();
+            } else stats["welpi-apply-threw"]++;
+        } else stats["welpi-deck-failed"]++;
     }
     std::ofstream f(outdir + "/prop_stats.json");
     f << "{\n  \"checked\": " << log.checked << ",\n  \"failed\": " << log.failed;
